@@ -34,8 +34,10 @@ type Node struct {
 	Small  map[int8]string   `json:"small"`
 	Bytes  map[uint8]string
 	M      map[string]any
-	Short  string `json:"id"` // two tags that differ only in case: "id" ...
-	Long   string `json:"ID"` // ... and "ID"
+	Short  string `json:"id"`   // two tags that differ only in case: "id" ...
+	Long   string `json:"ID"`   // ... and "ID"
+	Type   string `json:"Kind"` // an EARLIER field whose JSON tag spells ...
+	Kind   string `json:"kind"` // ... the Go name of a later field: x.Kind is this one
 	hidden string
 	secret any
 	Leaf
@@ -58,8 +60,10 @@ type rootT struct {
 	Any    any    `json:"any"`
 	Short  string `json:"id"` // two tags that differ only in case
 	Long   string `json:"ID"`
-	Token  string `json:"-"`  // exported, hidden from encoding/json: still a Go field
-	Dash   string `json:"-,"` // encoding/json: the literal name "-"
+	Token  string `json:"-"`    // exported, hidden from encoding/json: still a Go field
+	Dash   string `json:"-,"`   // encoding/json: the literal name "-"
+	Type   string `json:"Kind"` // tag of an earlier field = Go name of the next field
+	Kind   string `json:"kind"`
 }
 
 // VD is a JSON-serialisable description of a Go value.
@@ -256,6 +260,8 @@ func (v VD) node() Node {
 		hidden: v.M["hidden"].S,
 		Short:  v.M["Short"].S,
 		Long:   v.M["Long"].S,
+		Type:   v.M["Type"].S,
+		Kind:   v.M["Kind"].S,
 		Leaf:   Leaf{Deep: v.M["Deep"].S, Num: atoi(v.M["Num"].S)},
 	}
 	if a, ok := v.M["Any"]; ok {
